@@ -8,6 +8,7 @@ package xts
 //@ func mul2
 //@ props C13
 //@ nonnil tweak
+//@ modifies *tweak
 //@ ensures tweak[15] == (old(tweak[15]) * 2 + old(tweak[14]) / 128) % 256
 //@ ensures tweak[0] == ite(old(tweak[15]) >= 128, uint8(old(tweak[0]) * 2) ^ 135, uint8(old(tweak[0]) * 2))
 //@ canary ensures tweak[15] == old(tweak[15])
